@@ -677,7 +677,35 @@ def _is_local(body, S, term, l, blk):
     return False
 
 
+def rule_quality_table(ctx):
+    """R5: the quality reported for a distance comes from the score table of the signature's own protocol, in every impl of
+    DatabaseSignature (the request and the response impl of http::Signature are siblings and must agree)"""
+    P = ctx.program
+    want = {"huginn_net_db::tcp::Signature": "TcpMatchQuality", "huginn_net_db::http::Signature": "HttpMatchQuality"}
+    n = 0
+    for b in P.bodies.values():
+        if b.kind == "AssocFn" and b.name == "get_quality_score" and (b.impl_trait or "").endswith("DatabaseSignature") and b.blocks:
+            st = (b.impl_self or "").split("<")[0]
+            if st not in want:
+                continue
+            n += 1
+            tables = set()
+            for cb in Q.callgraph_closure(P, b, depth=3):
+                for _, t in cb.calls():
+                    nm = callee_of(t)
+                    if nm.endswith("::distance_to_score"):
+                        hit = [w for w in ("TcpMatchQuality", "HttpMatchQuality") if w in nm]
+                        tables.add(hit[0] if hit else nm.split("::")[-2])
+            obs = (b.path.split("DatabaseSignature<")[-1].split(">")[0].split("::")[-1]) if "DatabaseSignature<" in b.path else "?"
+            ctx.check(tables == {want[st]}, "R5", "quality-table:%s<%s>" % (st.split("::")[-2] + "::Signature", obs),
+                      "quality = %s::distance_to_score(distance)" % want[st],
+                      "the quality of a %s match is read from %s: the chosen entry is still the optimum but the reported quality is not the one its distance stands for "
+                      "(the tables differ from distance 4 on)" % (st.split("::")[-2].upper(), sorted(tables) or "no score table"), ctx.loc(b))
+    ctx.floor("R5", "get_quality_score implementations", n, 3)
+
+
 def run(ctx):
+    rule_quality_table(ctx)
     rule_R1_R2(ctx)
     rule_R3(ctx)
     rule_R4_R5_R6(ctx)
